@@ -3,6 +3,7 @@ package main
 import (
 	"fmt"
 	"go/token"
+	"go/types"
 	"strings"
 
 	"golang.org/x/tools/go/ssa"
@@ -22,6 +23,7 @@ func runC02(c *Ctx, r *Report) {
 	c02R2(c, r, "C02.R2")
 	c02R6(c, r, "C02.R6")
 	c02Router(c, r, "C02.R7")
+	c02R8(c, r, "C02.R8")
 }
 
 type innerRes struct {
@@ -329,6 +331,78 @@ func c02Router(c *Ctx, r *Report, rule string) {
 			r.ok(rule, name, fmt.Sprintf("routes=%d", n), "-", fmt.Sprintf("%d paths explored, all satisfy the routing invariants; e.g. %s", len(paths), paths[len(paths)/2].String()))
 		} else {
 			r.bad(rule, name, fmt.Sprintf("routes=%d", n), "-", fmt.Sprintf("%d of %d paths violate the routing invariants:\n%s", nbad, len(paths), strings.Join(first, "\n")))
+		}
+	}
+}
+
+// c02R8: lists collected in a loop do not share storage. A slice that is emptied for reuse (x = x[:0]) keeps its
+// backing array; appending it as an element to a collection inside the loop makes every collected element the
+// same storage, overwritten by the next iteration (several matcher sets of a route all become the last one).
+func c02R8(c *Ctx, r *Report, rule string) {
+	r.rule(rule, "no slice that is reset for reuse (x[:0]) is appended as an element to a collection inside a loop: every matcher set / list collected per iteration has storage of its own", 3)
+	for _, fn := range c.Funcs {
+		if len(fn.Blocks) == 0 {
+			continue
+		}
+		n := 0
+		for _, b := range fn.Blocks {
+			if !inLoop(b) {
+				continue
+			}
+			for _, in := range b.Instrs {
+				st, ok := in.(*ssa.Store)
+				if !ok {
+					continue
+				}
+				if _, isSl := st.Val.Type().Underlying().(*types.Slice); !isSl {
+					continue
+				}
+				ia, ok := st.Addr.(*ssa.IndexAddr)
+				if !ok {
+					continue
+				}
+				al, ok := ia.X.(*ssa.Alloc)
+				if !ok || !strings.Contains(al.Comment, "varargs") {
+					continue
+				}
+				n++
+				// provenance of the element's storage
+				reused := ""
+				seen := map[ssa.Value]bool{}
+				var walk func(v ssa.Value, d int)
+				walk = func(v ssa.Value, d int) {
+					if v == nil || seen[v] || d > 30 {
+						return
+					}
+					seen[v] = true
+					switch x := v.(type) {
+					case *ssa.Phi:
+						for _, e := range x.Edges {
+							walk(e, d+1)
+						}
+					case *ssa.Call:
+						if calleeID(x) == "builtin append" && len(x.Call.Args) > 0 {
+							walk(x.Call.Args[0], d+1)
+						}
+					case *ssa.Slice:
+						if hi, isC := constInt(x.High); isC && hi == 0 && x.High != nil {
+							reused = c.ipos(x)
+							return
+						}
+						walk(x.X, d+1)
+					case *ssa.ChangeType:
+						walk(x.X, d+1)
+					case *ssa.UnOp:
+						if al2, ok := x.X.(*ssa.Alloc); ok && x.Op == token.MUL {
+							for _, s2 := range storesTo(al2) {
+								walk(s2, d+1)
+							}
+						}
+					}
+				}
+				walk(st.Val, 0)
+				r.check(reused == "", rule, fname(fn), fmt.Sprintf("collected list#%d", n), c.ipos(st), "the collected list has its own storage", "the list appended to the collection here is a slice emptied for reuse at "+reused+": all collected elements share one backing array and end up equal to the last one")
+			}
 		}
 	}
 }
